@@ -87,8 +87,8 @@ class Check(PropertyCheck):
             integer = rng.random() < 0.15
             if integer:
                 pts = [(float(round(x)), float(round(y))) for (x, y) in pts]
-            cases.append({'kind': d['kind'], 'region': d, 'qshape': qs, 'int': integer,
-                          'pts': [[x, y] for (x, y) in pts]})
+            cases.append(G.add_history(rng, {'kind': d['kind'], 'region': d, 'qshape': qs, 'int': integer,
+                                             'pts': [[x, y] for (x, y) in pts]}))
         return cases
 
     @staticmethod
@@ -117,7 +117,7 @@ class Check(PropertyCheck):
 
     def real(self, case):
         from regions import PixCoord
-        reg = G.build(case['region'])
+        reg = G.build_case(case)
         pc, shape = self._coords(case)
         out = {}
         try:
@@ -142,7 +142,7 @@ class Check(PropertyCheck):
 
     def requests(self, case):
         # the model needs the regular polygon's real vertices: rebuild (cheap) — deterministic
-        reg = G.build(case['region'])
+        reg = G.build_case(case)
         return [{'op': 'contains', 'region': G.model(case['region'], reg),
                  'pts': [[frac(Fraction(float(p[0]))), frac(Fraction(float(p[1])))] for p in case['pts']]}]
 
